@@ -466,30 +466,11 @@ func hasKind(c Case, pred func(string) bool) bool {
 // After a fix the mechanism's evidence no longer occurs; anything else that
 // violates the same clause keeps its own, different signature.
 func recognise(c Case, b *built, f *finding) string {
+	if os.Getenv("VERIF_C13_NORECOGNISE") != "" {
+		return "" // debugging aid: report catalogued mechanisms under their clause signature
+	}
 	clause := strings.TrimPrefix(strings.TrimPrefix(strings.TrimPrefix(f.Clause, "after-close-"), "written-"), "referrer-")
 	isFileStep := func(k string) bool { return fileStepKinds[k] }
-	// rebase of >=2 platform images onto a base that is a single image (one cached manifest object):
-	// the step builds each image's layer list with append(layersNew, own...) on the SAME slice; when
-	// its capacity exceeds its length (3, 5, 6, 7 ... layers decoded from JSON) the images overwrite each
-	// other's first own layer (or a later delete zeroes it)
-	rebases := false
-	for _, o := range c.Program {
-		if c.Base != nil && ((o.Kind == "rebase" && !c.Base.SameNew) || (o.Kind == "rebase-refs" && o.N != 1)) {
-			rebases = true
-		}
-	}
-	if rebases && !c.Base.AsIndex {
-		n, rebased := len(c.Base.NewLayers), 0
-		for _, im := range c.Images {
-			if im.UseBase {
-				rebased++
-			}
-		}
-		layerClause := strings.HasPrefix(clause, "layer-") || strings.HasPrefix(clause, "diffid") || strings.HasPrefix(clause, "history-")
-		if rebased >= 2 && n >= 3 && n&(n-1) != 0 && layerClause {
-			return "rebase-layer-slice-of-single-base-manifest-aliased-across-platforms"
-		}
-	}
 	switch clause {
 	case "index-entry-data-mismatch":
 		// the data field of an index entry holds an index body (the parent's), not the child manifest
@@ -530,6 +511,28 @@ func recognise(c Case, b *built, f *finding) string {
 		// a layer rewritten by a file-level step after a compression change is encoded per its original media type
 		if hasKind(c, func(k string) bool { return k == "layer-compress" }) && hasKind(c, isFileStep) {
 			return "rewritten-layer-encoded-per-original-mediatype"
+		}
+	}
+	// rebase of >=2 platform images onto a base that is a single image (one cached manifest object):
+	// the step builds each image's layer list with append(layersNew, own...) on the SAME slice; when
+	// its capacity exceeds its length (3, 5, 6, 7 ... layers decoded from JSON) the images overwrite each
+	// other's first own layer (or a later delete zeroes it)
+	rebases := false
+	for _, o := range c.Program {
+		if c.Base != nil && ((o.Kind == "rebase" && !c.Base.SameNew) || (o.Kind == "rebase-refs" && o.N != 1)) {
+			rebases = true
+		}
+	}
+	if rebases && !c.Base.AsIndex {
+		n, rebased := len(c.Base.NewLayers), 0
+		for _, im := range c.Images {
+			if im.UseBase {
+				rebased++
+			}
+		}
+		layerClause := strings.HasPrefix(clause, "layer-") || strings.HasPrefix(clause, "diffid") || strings.HasPrefix(clause, "history-")
+		if rebased >= 2 && n >= 3 && n&(n-1) != 0 && layerClause {
+			return "rebase-layer-slice-of-single-base-manifest-aliased-across-platforms"
 		}
 	}
 	return ""
